@@ -362,11 +362,19 @@ def coq_full_case(name, inp, res, big):
     use = 'true' if res['ncd'] is not None else 'false'
     ncdl = rarr_lit(res['ncd']) if res['ncd'] is not None else '[]'
     S2 = np.broadcast_to(res['S'], (len(n_idx), len(om)))
+    # tolerances: relative to the largest entry, but not below 1e-4 of the natural scale of the observable (an all-idle
+    # pulse has an identically vanishing derivative; the implementation then returns rounding noise)
+    Bm = np.abs(p.get_control_matrix(om)).max()
+    cn = max(1.0, max(np.linalg.norm(p.c_opers[h], 2) for h in c_idx))
+    sCD = Bm * p.dt.max() * cn
+    sD = Bm * sCD
+    sID = sD * np.abs(S2).max() * (om.max() - om.min()) / (2 * np.pi * p.d)
+    scale = lambda A, nat: max(np.abs(A).max(), 1e-4 * nat, 1e-300)
     tal = [f"tally_eig O {p.d} {emit.tol_lit(1e-11 * hscale, big)} Hs Vs ev",
-           f"tallyC O {emit.tol_lit(REL_TOL * max(np.abs(CD).max(), 1e-300), big)} {carr_lit(CD.reshape(-1))}%Z (flat5 (fst (fst R)))",
-           f"tallyR O {emit.tol_lit(REL_TOL * max(np.abs(D).max(), 1e-300), big)} {rvec_lit(D.reshape(-1))}%Z (flat4 (snd (fst R)))"]
+           f"tallyC O {emit.tol_lit(REL_TOL * scale(CD, sCD), big)} {carr_lit(CD.reshape(-1))}%Z (flat5 (fst (fst R)))",
+           f"tallyR O {emit.tol_lit(REL_TOL * scale(D, sD), big)} {rvec_lit(D.reshape(-1))}%Z (flat4 (snd (fst R)))"]
     if res['ID'] is not None and res['ID'].shape == D.shape[:3]:
-        tal.append(f"tallyR O {emit.tol_lit(REL_TOL * max(np.abs(res['ID']).max(), 1e-300), big)} "
+        tal.append(f"tallyR O {emit.tol_lit(REL_TOL * scale(res['ID'], sID), big)} "
                    f"{rvec_lit(res['ID'].reshape(-1))}%Z (flat3 (snd R))")
     expr = tal[-1]
     for t in reversed(tal[:-1]):
